@@ -3,7 +3,7 @@
    (coq/gen/ConcGen.v), and the access sequences the model of Conc.v assumes.
    No proofs in this file; the agreement lemmas are in proofs/ConcProofs.v. *)
 From Coq Require Import String List Bool.
-From J5V.model Require Import Conc.
+From J5V.model Require Import Conc ConcKey.
 From J5V.gen Require ConcGen.
 Import ListNotations.
 Local Open Scope string_scope.
@@ -110,6 +110,21 @@ Definition code_guarded : bool :=
 
 (* the discipline under which the correspondence evaluates the model *)
 Definition code_disc : disc := if code_guarded then Guarded else Unguarded.
+
+(* ---- a cache hit that was registered for another descriptor (ConcKey.v) ---------------- *)
+(* The cache is keyed by (package, descriptor path joined with "_"), which two descriptors can share.
+   The lookup of Schema (schemaLocked) and the lookups of the field builders (through
+   newRefPlaceholder) either serve whatever they find, or compare the descriptor the RefSchema was
+   registered for (token read:source, a field of RefSchema) and fail on a foreign one.  HitCheck is
+   chosen only if EVERY function that looks a message up does the comparison. *)
+Definition reads_source (tab : fn_table) (fname : string) : bool :=
+  existsb (fun f => String.eqb (fst (fst f)) fname && existsb (String.eqb "read:source") (snd f)) tab.
+
+Definition code_checks_source : bool :=
+  reads_source ConcGen.cache_methods "schemaLocked" &&
+  reads_source ConcGen.placeholder_functions "buildMessageFieldSchema".
+
+Definition code_hitpol : hitpol := if code_checks_source then HitCheck else HitServe.
 
 (* ---- the access sequences the step function of Conc.v mirrors ------------- *)
 (* What is compared with the regenerated tables, and what is not (conc3).
